@@ -232,7 +232,7 @@ def gen_tie(groups=None):
 IMP_SOURCES = ["pyp0f/impersonate/tcp.py", "pyp0f/impersonate/utils.py", "pyp0f/net/layers/tcp/flags.py", "pyp0f/net/layers/tcp/options.py", "pyp0f/net/quirks.py",
                "pyp0f/database/signatures/tcp.py", "pyp0f/database/parse/wildcard.py", "pyp0f/net/layers/ip.py"]
 IMP_THEOREMS = ["gen_impersonate_ip_eq", "gen_impersonate_options_eq", "gen_impersonate_window_eq", "gen_impersonate_payload_eq", "gen_impersonate_eq",
-                "parsed_wsize_ok", "C05_translated_code_sound", "C05_translated_code_no_raise", "C14_translated_options"]
+                "gen_select_signature_given", "gen_select_signature_label", "gen_select_signature_neither", "parsed_wsize_ok", "C05_translated_code_sound", "C05_translated_code_no_raise", "C14_translated_options"]
 
 
 SIG_THEOREMS = ["gen_is_wildcard_eq", "gen_parse_number_in_range_eq", "gen_parse_from_options_eq", "gen_split_parts_eq", "gen_parse_ttl_eq", "gen_parse_window_eq",
